@@ -141,6 +141,7 @@ GENERIC_RULES = [
     R(r"std::numeric_limits<\s*(?:std::size_t|size_t|size_type)\s*>::max\(\)", "SIZE_MAX", None),
     R(r"\bsize_type\s*\(\s*-1\s*\)", "SIZE_MAX", None),
     R(r"\(size_type\)\(-1\)", "SIZE_MAX", None),
+    R(r"\btypename\s+\w+::size_type\b", "size_t", None),
     R(r"\bstd::size_t\b", "size_t", None),
     R(r"\bstd::ptrdiff_t\b", "ptrdiff_t", None),
     R(r"\bstd::uint8_t\b", "uint8_t", None),
